@@ -1,6 +1,8 @@
 package c03
 
 import (
+	"strconv"
+	"os"
 	"context"
 	"fmt"
 	"sort"
@@ -542,13 +544,124 @@ func scenarios(thorough bool) []scen {
 	return s
 }
 
+// generated enumerates every history of up to maxLen environment steps over a small alphabet, on top of two initial
+// states (the watched file ends on a line boundary / in the middle of a line): append a complete line to a, start a
+// partial line in a, complete it, append a line to a second file b, rotate a by rename and start a new a, truncate a.
+// Every step comes after a short (100ms) or a long (700ms: a maintenance round and an offsets save fit in) pause; a
+// truncation is always followed by a long pause so that it can be noticed before the file has grown again.
+// Single stream only (files carrying several streams have the recorded open finding).
+func generated(maxLen int, variants [][2]bool) []scen {
+	a, b := logDir+"/a.log", logDir+"/b.log"
+	type state struct {
+		steps   []step
+		partial bool // a ends in the middle of a line
+		trunc   bool
+		rot     int
+		bExists bool
+		n       int // line ids handed out
+		name    string
+		afterT  bool
+	}
+	var out []scen
+	var rec func(st state, initial map[string]string)
+	emit := func(st state, initial map[string]string) {
+		if len(st.steps) == 0 {
+			return
+		}
+		for _, v := range variants {
+			sync, watch := v[0], v[1]
+			var steps []step
+			for _, s := range st.steps {
+				created := s.kind == "created"
+				s.kind = ""
+				steps = append(steps, s)
+				// a new file in the watched directory is always announced (directory watch); writes to a known file only
+				// with should_watch_file_changes
+				if s.op == "append" && created {
+					steps = append(steps, step{op: "notify", kind: "create", path: s.path})
+				} else if s.op == "append" && watch {
+					steps = append(steps, step{op: "notify", kind: "write", path: s.path})
+				}
+			}
+			out = append(out, scen{name: fmt.Sprintf("gen%s-%s-s%vw%v", map[bool]string{true: "P", false: "L"}[strings.HasSuffix(initial[a], `"a`)], st.name, b2i(sync), b2i(watch)),
+				initial: initial, steps: steps, sync: sync, watch: watch, truncated: st.trunc, bound: 1, batch: 1 + len(st.steps)%2})
+		}
+	}
+	rec = func(st state, initial map[string]string) {
+		emit(st, initial)
+		if len(st.steps) == maxLen {
+			return
+		}
+		for _, pause := range []time.Duration{100 * time.Millisecond, 700 * time.Millisecond} {
+			if st.afterT && pause < 700*time.Millisecond {
+				continue
+			}
+			pn := map[time.Duration]string{100 * time.Millisecond: "", 700 * time.Millisecond: "_"}[pause]
+			next := func(code string, s step, f func(*state)) {
+				n := st
+				n.steps = append(append([]step{}, st.steps...), s)
+				n.name = st.name + pn + code
+				n.afterT = false
+				f(&n)
+				rec(n, initial)
+			}
+			id := fmt.Sprintf("g%d", st.n+1)
+			if !st.partial {
+				next("A", step{op: "append", path: a, data: line("", id), pause: pause}, func(n *state) { n.n++ })
+				next("P", step{op: "append", path: a, data: `{"l":"` + id, pause: pause}, func(n *state) { n.n++; n.partial = true })
+			} else {
+				next("Q", step{op: "append", path: a, data: `"}` + "\n", pause: pause}, func(n *state) { n.partial = false })
+			}
+			bkind := "created"
+			if st.bExists {
+				bkind = ""
+			}
+			next("B", step{op: "append", path: b, data: line("", id), pause: pause, kind: bkind}, func(n *state) { n.n++; n.bExists = true })
+			if !st.trunc && st.rot == 0 && len(st.steps)+2 <= maxLen {
+				// rotation = rename + a new file under the old name (two steps)
+				n := st
+				n.steps = append(append([]step{}, st.steps...), step{op: "rotate", path: a, to: logDir + "/a.log.1", pause: pause},
+					step{op: "append", path: a, data: line("", id), kind: "created"})
+				n.name = st.name + pn + "R"
+				n.rot, n.n, n.partial, n.afterT = 1, st.n+1, false, false
+				rec(n, initial)
+			}
+			if st.rot == 0 && !st.trunc {
+				next("T", step{op: "truncate", path: a, pause: pause}, func(n *state) { n.trunc = true; n.partial = false; n.afterT = true })
+			}
+		}
+	}
+	rec(state{}, map[string]string{a: line("", "i1") + line("", "i2")})
+	rec(state{partial: true}, map[string]string{a: line("", "i1") + `{"l":"a`})
+	return out
+}
+
+func b2i(v bool) int {
+	if v {
+		return 1
+	}
+	return 0
+}
+
 func TestVerif(t *testing.T) {
 	vplug.Quiet()
 	r := vreport.Start("C03")
 	defer r.Finish()
 	r.Rule("every execution of lifetime 1 within the deviation bound, where the kill is one of the deviations offered at every scheduling point (bound 1 = every kill instant on the base schedule plus every single preemption/timer landing without kill), each followed by lifetime 2 on the default schedule; non-trivial = executions with >=1 deviation and a new scheduling trace; states = distinct (killed?, lines delivered in run 1, lines delivered in run 2)")
 	var scs []vexplore.Scenario
-	for _, sc := range scenarios(r.Thorough()) {
+	all := scenarios(r.Thorough())
+	if r.Thorough() {
+		all = append(all, generated(3, [][2]bool{{true, true}, {false, false}})...)
+	} else {
+		all = append(all, generated(1, [][2]bool{{true, true}, {false, false}})...)
+	}
+	if v := os.Getenv("VERIF_C03_GEN"); v != "" {
+		// experimentation aid: only the generated histories of the given length
+		n, _ := strconv.Atoi(v)
+		all = generated(n, [][2]bool{{true, true}, {false, false}})
+	}
+	r.Bound("histories", len(all))
+	for _, sc := range all {
 		sc := sc
 		weight := 1
 		if sc.bound > 1 {
